@@ -919,6 +919,8 @@ PROPS["C15"] = {
 PROPS["C17"] = {
     "theorems": [
         "Lace.C17.span_starts_at_statement_token",
+        "Lace.C17.span_covers_operands_holds",
+        "Lace.C17.multiword_share_span_holds",
         "Lace.C17.span_text_eq_statement_partial",
         "Lace.C17.no_statement_no_text",
         "Lace.C17.statement_text",
